@@ -9,6 +9,7 @@ import NeoModel.Proofs.CodecPubKey
 import NeoModel.Proofs.CodecNep2
 import NeoModel.Proofs.CodecMsSort
 import NeoModel.Proofs.CodecScript
+import NeoModel.Proofs.CodecMsCanon
 import NeoModel.Proofs.CodecMsDecode
 import NeoModel.Proofs.CodecKeysMisc
 import NeoModel.Proofs.CodecFixedInv
@@ -485,5 +486,103 @@ theorem go_decodeBinary_uncompressed (C : CurveP) (pfx : UInt8) (rest : Bytes) (
     · have c4' : ¬ ((pfx.toNat : Int) % 256 = 4) := fun h => c4 (e4.mp h)
       have c4b : (pfx == 0x04) = false := by simpa using c4
       simp [c0', c4', c0b, c4b]
+
+
+/-! ### fourth round -/
+
+/-- the translated `emit.Int`: `bigInt` is called exactly when `smallInt` wrote nothing — the model's `emitInt`. -/
+theorem go_emitInt_eq (i : Int) :
+    GoFuncs.emitInt i (smallInt i).isSome = (if (smallInt i).isSome then [] else ["bigInt"]) ∧
+    emitInt i = (if (smallInt i).isSome then smallInt i else emitBigIntAux i false) := by
+  unfold GoFuncs.emitInt emitInt
+  cases h : smallInt i <;> simp
+
+/-- the translated `emit.bigInt` (no earlier writer error): it fails exactly when the model's
+`emitBigIntAux` does, with the same check order (small path, `CheckIntegerSize`, empty encoding = PUSH0,
+otherwise opcode + padded bytes). -/
+theorem go_emitBigInt_eq (n : Int) (ts : Bool) (buf lz : Int) :
+    GoFuncs.emitBigInt ts false (isInt64 n) (smallInt n).isSome (!checkIntegerSize n) buf ((toBytes n).length : Int) lz
+      = ((emitBigIntAux n ts).isNone,
+         if ts && isInt64 n && (smallInt n).isSome then []
+         else if !checkIntegerSize n then []
+         else if (toBytes n).isEmpty then ["Opcodes"] else ["Opcodes", "w.WriteBytes"]) := by
+  unfold GoFuncs.emitBigInt emitBigIntAux
+  by_cases c1 : (ts && isInt64 n && (smallInt n).isSome) = true
+  · have c1' : (ts = true ∧ isInt64 n = true) ∧ (smallInt n).isSome = true := by
+      simp only [Bool.and_eq_true] at c1; exact c1
+    simp only [Bool.false_eq_true, if_false, c1', and_self, if_true, c1]
+    cases h : smallInt n with
+    | none => rw [h] at c1'; simp at c1'
+    | some b => simp
+  · have c1' : ¬ ((ts = true ∧ isInt64 n = true) ∧ (smallInt n).isSome = true) := by
+      intro h; apply c1; simp only [Bool.and_eq_true]; exact h
+    simp only [Bool.false_eq_true, if_false, c1', c1]
+    cases hc : checkIntegerSize n
+    · simp
+    · simp only [Bool.not_true, Bool.false_eq_true, if_false]
+      cases hb : toBytes n with
+      | nil => simp
+      | cons x t =>
+        have : ¬ ((t.length : Int) + 1 = 0) := by omega
+        simp [this]
+
+/-- the translated `Fixed8FromString`: the parser's error first, otherwise `num.Int64()` — the model's
+`fixed8FromString` (the decimal wrapped to int64). -/
+theorem go_fixed8FromString_eq (s : Bytes) :
+    GoFuncs.fixed8FromString ((decFromString s 8).getD 0) (decFromString s 8).isNone (wrapInt64 ((decFromString s 8).getD 0))
+      = match fixed8FromString s with
+        | some w => (w, "ok")
+        | none => (0, "FromString_s_precision_1_err") := by
+  unfold GoFuncs.fixed8FromString fixed8FromString
+  cases decFromString s 8 <;> simp
+
+/-! ### the arithmetic of the fee repair c9cbbdc: where the n-push of a multisig script is -/
+
+theorem keysCode_length (ks : List Bytes) : (keysCode ks).length = (ks.map fun k => 2 + k.length).sum := by
+  induction ks with
+  | nil => rfl
+  | cons k t ih =>
+    simp only [keysCode, List.map_cons, List.flatten_cons, List.length_append, List.sum_cons] at ih ⊢
+    rw [ih]; simp [pd1]; omega
+
+/-- the translated `fee.pushIntSize` is the length of every instruction the parser reads as a count. -/
+theorem go_pushIntSize_eq (v : Nat) (hv : 1 ≤ v) (a : Bytes) (ha : a ∈ countEncodings v) :
+    ∃ o, a.head? = some o ∧ GoFuncs.feePushIntSize (o.toNat : Int) = (a.length : Int) := by
+  obtain ⟨o, ho, he⟩ := countEnc_by_head v a ha hv
+  refine ⟨o, ho, ?_⟩
+  rw [he]
+  unfold GoFuncs.feePushIntSize encOfHead
+  by_cases c : o.toNat ≤ 5
+  · have c' : ((o.toNat : Int) ≤ 5) := by omega
+    simp only [c, c', if_true, countEnc, List.length_cons, leBytes_length, Int.toNat_natCast]
+    push_cast
+    omega
+  · have c' : ¬ ((o.toNat : Int) ≤ 5) := by omega
+    simp [c, c']
+
+/-- in every script `ParseMultiSigContract` accepts, `fee.Calculate`'s offset
+`pushIntSize(script[0]) + Σ (2 + len(pub))` is exactly the position of the n-push: the first byte is the
+opcode of one of the listed encodings of `m`, and the byte at that offset is the opcode of one of the
+listed encodings of `n`. -/
+theorem multisig_fee_offset (s : Bytes) (m : Nat) (pubs : List Bytes) (h : parseMultiSig s = some (m, pubs)) :
+    ∃ mOp nOp a c, a ∈ countEncodings m ∧ c ∈ countEncodings pubs.length ∧ s = msScript a pubs c ∧
+      a.head? = some mOp ∧ c.head? = some nOp ∧ s.head? = some mOp ∧
+      s[(GoFuncs.feePushIntSize (mOp.toNat : Int)).toNat + (pubs.map fun k => 2 + k.length).sum]? = some nOp ∧
+      GoFuncs.feePushIntSize (nOp.toNat : Int) = (c.length : Int) := by
+  obtain ⟨h1, h2, h3, hk, a, ha, c, hc, hs⟩ := (parseMultiSig_iff' s m pubs).mp h
+  obtain ⟨mOp, hma, hml⟩ := go_pushIntSize_eq m h1 a ha
+  obtain ⟨nOp, hnc, hnl⟩ := go_pushIntSize_eq pubs.length (by omega) c hc
+  refine ⟨mOp, nOp, a, c, ha, hc, by unfold msScript; exact hs, hma, hnc, ?_, ?_, hnl⟩
+  · rw [hs]
+    cases a with
+    | nil => simp at hma
+    | cons x t => simpa using hma
+  · rw [hml, Int.toNat_natCast, ← keysCode_length, hs]
+    have : a ++ keysCode pubs ++ c ++ opSYSCALL :: multisigID = (a ++ keysCode pubs) ++ (c ++ opSYSCALL :: multisigID) := by
+      simp [List.append_assoc]
+    rw [this, ← List.length_append, List.getElem?_append_right (Nat.le_refl _), Nat.sub_self]
+    cases c with
+    | nil => simp at hnc
+    | cons x t => simpa using hnc
 
 end NeoModel.Codec
